@@ -725,6 +725,10 @@ def _nostate_cond(ctx: Ctx, cname: str, f: FunctionInfo, node: ast.AST, target: 
             if t.kind == "test" and isinstance(t.ast, ast.If) and cfg.dominates(t.id, cn.id):
                 test = t.ast.test
                 miss = isinstance(test, ast.UnaryOp) and isinstance(test.op, ast.Not) and norm(test.operand) == cont
+                # the miss test combined with others (`if not getter and not table:`): the store happens where the table is known empty
+                from ..shape import facts_at as _facts_here
+
+                miss = miss or (cont, False) in _facts_here(ctx, f, node)
                 if miss and not cfg.path_exists(t.id, cn.id, skip_edges=[(t.id, "true")]):
                     # what is stored: constructor calls / None only
                     vals = []
